@@ -1,5 +1,30 @@
 import Mathlib.Data.List.Lex
 import PydjinniModel.Gen.Deriving
+/-!
+# C09 — derived record operations behave as specified
+
+Statements about the bodies `Gen/Deriving.lean` emits (C++ `source/record.jinja2.cpp`, Java `record.jinja2.java` +
+`type.py`), evaluated with `Lang/MiniImp`; for any number of fields. A record value is a function from fields to
+`Option α` (`none` = `std::nullopt` / `null`). In the second half `α` is any linear order; the *key* of a record value
+is its field list, an absent optional being `[]` and a present value `[x]`, ordered lexicographically.
+
+general operations (`Ops`):
+* `evalE_conj_map`                 an `&&` chain is the conjunction of its terms; no term at all is ill-formed (`stuck`)
+* `cpp_eq_allEq`, `cpp_lt_lexLt`   `==` is "all fields equal"; the if-ladder is the lexicographic comparison
+* `java_equals_allEq`              `equals` is "all fields equal" (`null` only equals `null`), never throws on well-formed objects
+* `java_hash_value`                `hashCode` = fold `h ↦ h·31 + hash(field)` from 17 in 32-bit arithmetic; never throws
+* `java_equals_hash`               `a.equals(b)` ⇒ `a.hashCode() == b.hashCode()` whenever the field hashes respect field equality
+* `java_compare_lexCmp`            `compareTo` = sign of the first differing field
+* `java_compare_null_throws`       a `null` in a compared field throws (DESIGN §9 row 42: optionals under `ord`)
+
+over a linear order:
+* `cpp_eq_spec`, `cpp_ne_spec`     `==` ⇔ all fields equal, `!=` its negation
+* `cpp_lt_lex`, `cpp_gt_spec`, `cpp_le_spec`, `cpp_ge_spec`   `<` is the lexicographic order of the keys; `>`, `<=`, `>=` accordingly
+* `cpp_lt_irrefl`, `cpp_lt_trans`, `cpp_lt_trichotomous`, `cpp_eq_equivalence`   strict total order consistent with `==`
+* `java_equals_spec`, `java_compare_lex`, `java_compare_antisymm`, `java_compare_consistent_equals`
+* `tostring_mentions_all`, `cpp_tostring_args`   the string form mentions every field
+* `cpp_declared_defined`, `java_members_consistent`   emission decisions
+-/
 namespace Pydjinni.Gen
 open Pydjinni.Lang.MiniImp
 
